@@ -121,6 +121,10 @@ def SH(tier):
 
 def CNT(tier):
     return IntDom(1, 3 if tier == "quick" else 4)
+
+
+def CNT0(tier):
+    return IntDom(0, 3 if tier == "quick" else 4)          # deleting zero rows / columns leaves the grid as it is
 OUT = ["save/reopen and isolation between documents (object store, protobuf, zip)", "add_table/add_sheet cloning",
        "shapes beyond 3x2 and counts beyond 3 (loops over cells are concrete)"]
 # ------------------------------------------------------------------------------------------------ table cloning
@@ -270,18 +274,24 @@ class CloneModel(Cacheable):
 
 
 def no_refs(obj):
-    return {}
+    """field_references: the reference fields the object really carries (the cloned-from table's data store may carry a
+    merge map of its own, a string list, a style list ...)"""
+    return {k: dict(v) for k, v in obj.__dict__.get("_refs", {}).items()}
 
 
 PER_TABLE = ["stringTable", "columnHeaders", "styleTable", "formula_table", "format_table_pre_bnc"]
 
 
-def h03_clone(rows1, cols1, rows2, cols2, same_sheet, hdr=1):
+def h03_clone(rows1, cols1, rows2, cols2, same_sheet, hdr=1, src_merges=False):
     """two tables added at run time share none of their per-table objects (string list, style list, formula list, format
     list, header buckets, stroke sidecar) - neither with each other nor with the table they were cloned from: an edit
     to one can never show up in the other"""
     assume(1 <= rows1 <= 1000 and 1 <= cols1 <= 1000 and 1 <= rows2 <= 1000 and 1 <= cols2 <= 1000)
     m = CloneModel()
+    if src_merges:
+        # the table that is cloned has merged cells and strings of its own (a reopened document)
+        m.objects.store[7].base_data_store.__dict__["_refs"] = {"merge_region_map": {"identifier": 70}, "stringTable": {"identifier": 71},
+                                                                 "styleTable": {"identifier": 72}}
     a = m.add_table(3, "A", 7, 0.0, 0.0, rows1, cols1, hdr, hdr)
     assert m.name_ref_cache.marked >= 1         # the document has one more table name: what the name cache knows is stale
     b = m.add_table(3, "B", 7 if same_sheet else a, 0.0, 0.0, rows2, cols2, hdr, hdr)
@@ -293,8 +303,12 @@ def h03_clone(rows1, cols1, rows2, cols2, same_sheet, hdr=1):
     ids_b = [getattr(tb.base_data_store, f)["identifier"] for f in PER_TABLE] + [tb.stroke_sidecar.identifier] + \
             [r.identifier for r in tb.base_data_store.rowHeaders.buckets._items]
     assert len(ids_a) == 7 and len(ids_b) == 7
+    for t in (ta, tb):
+        # a new table has no merged cells: it does not point at the source table's merge map
+        mm = t.base_data_store.__dict__.get("merge_region_map")
+        assert mm is None or mm["identifier"] == 0
     for x in ids_a:
-        assert x not in ids_b and x != 7
+        assert x not in ids_b and x != 7 and x not in (70, 71, 72)
     assert len(set(ids_a)) == 7 and len(set(ids_b)) == 7
     assert ta.number_of_rows == rows1 and ta.number_of_columns == cols1
     assert tb.number_of_rows == rows2 and tb.number_of_columns == cols2
@@ -307,18 +321,18 @@ HARNESSES = [
             bounds="start: every Python int or None; count 1..3 (quick) / 1..4 (thorough); default absent, a text, the number 0 or the empty text; shapes {1,2,3} x {1,2} (quick) / {1..4} x {1,2,3} (thorough)", outside=OUT),
     Harness("H03-add_column", h03_add_column, lambda tier: dict(SH(tier), count=CNT(tier), start=IntDom(), at_end=BoolDom(), with_default=Cases([None, "d", 0, ""])),
             bounds="start: every Python int or None; count 1..3; default absent, a text, the number 0 or the empty text"),
-    Harness("H03-delete_row", h03_delete_row, lambda tier: dict(SH(tier), count=CNT(tier), start=IntDom(), at_end=BoolDom()),
-            bounds="start: every Python int or None; count 1..3 with the rows present (documented precondition)"),
-    Harness("H03-delete_column", h03_delete_column, lambda tier: dict(SH(tier), count=CNT(tier), start=IntDom(), at_end=BoolDom()),
-            bounds="start: every Python int or None; count 1..3 with the columns present"),
+    Harness("H03-delete_row", h03_delete_row, lambda tier: dict(SH(tier), count=CNT0(tier), start=IntDom(), at_end=BoolDom()),
+            bounds="start: every Python int or None; count 0..3 with the rows present (documented precondition)"),
+    Harness("H03-delete_column", h03_delete_column, lambda tier: dict(SH(tier), count=CNT0(tier), start=IntDom(), at_end=BoolDom()),
+            bounds="start: every Python int or None; count 0..3 with the columns present"),
     Harness("H03-write", h03_write, lambda tier: dict(SH(tier), row=IntDom(), col=IntDom()),
             bounds="position: every Python int pair that is negative, beyond the limits, or grows the table by <= 2"),
 ]
 HARNESSES.append(
     Harness("H03-clone", h03_clone,
-            dict(rows1=Cases([1, 3]), cols1=Cases([2]), rows2=Cases([1, 2]), cols2=Cases([2]), same_sheet=BoolDom(), hdr=Cases([0, 1])),
+            dict(rows1=Cases([1, 3]), cols1=Cases([2]), rows2=Cases([1, 2]), cols2=Cases([2]), same_sheet=BoolDom(), hdr=Cases([0, 1]), src_merges=Cases([False, True])),
             bounds="two consecutive add_table calls (cloning the original table, or the first clone), small concrete shapes, with one or "
-                   "no header row / column; each call invalidates the name cache",
+                   "no header row / column, the source table with or without a merge map of its own; each call invalidates the name cache",
             stubs=["object store and every protobuf message = attribute bags; the helpers add_table calls besides create_string_table "
                    "(metadata, drawable, formula owner, uuid map, tile rebuild, caption) are no-op stubs; NumbersUUID = counter"],
             outside=["what the cloned objects contain (protobuf construction)", "add_sheet", "isolation between simultaneously open documents"],
